@@ -248,7 +248,7 @@ static void explore_l1(Result& R, const Seed& seed, int depth) {
 // ------------------------------------------------------------------------------------------------ L2: pass level (H5 inside)
 struct FaceKey { bool used; unsigned a, b, c; };
 struct InPass { bool active = false; cell* c = nullptr; Snap before; std::vector<FaceKey> faces_before; long ops = 0; long max_ops = 0; std::string err; std::vector<Op> hist_prefix; double lmin2, lmax2; bool stale = false;
-                long splits = 0, merges = 0, swaps = 0; };
+                long splits = 0, merges = 0, swaps = 0; bool threw_in_op = false; std::string aborted_op, state_when_aborted; };
 static InPass g_pass;
 struct op_bound_exceeded : std::exception { const char* what() const noexcept override { return "operation bound exceeded"; } };
 
@@ -264,7 +264,10 @@ static void on_refine_op(int kind, void* cellp, unsigned n1, unsigned n2, int ph
         g_pass.faces_before.clear(); for (const face& f : c.face_lst_) g_pass.faces_before.push_back({f.is_used_, f.n1_id_, f.n2_id_, f.n3_id_});
         return;
     }
-    if (!g_pass.err.empty() || std::uncaught_exceptions() > 0) return;
+    if (std::uncaught_exceptions() > 0) {   // the operation is being left by an exception: the simulation run ends here.  What is recorded: whether the operation had already torn the surface open
+        if (!g_pass.threw_in_op) { g_pass.threw_in_op = true; g_pass.aborted_op = std::string(kind_name(kind)) + "(" + std::to_string(n1) + "," + std::to_string(n2) + ")"; try { g_pass.state_when_aborted = oracle_state(c, true); } catch (...) { g_pass.state_when_aborted = "oracle-threw"; } }
+        return; }
+    if (!g_pass.err.empty()) return;
     std::string e = oracle_state(c, true /* cached geometry of untouched faces predates the last displacement */);
 #ifdef PROP_C01
     if (e.empty()) { // cached normal vs winding on the faces this operation created is part of the statement; check all faces whose normal is fresh:
@@ -286,7 +289,7 @@ static bool in_band_and_good(const cell& c, const local_mesh_refiner& lmr, cell_
     return true;
 }
 
-struct L2Apply { std::string err; bool threw = false; };
+struct L2Apply { std::string err; bool threw = false; std::string what; };
 static L2Apply apply_l2(cell_ptr c, const Op& op, bool& stale) {
     L2Apply r; char buf[300];
     switch (op.kind) {
@@ -301,9 +304,14 @@ static L2Apply apply_l2(cell_ptr c, const Op& op, bool& stale) {
             g_pass = InPass(); g_pass.active = true; g_pass.c = c.get(); g_pass.max_ops = 50 * (long)c->edge_set_.size() + 50 + (long)(40.0 * (double)before.area / (L_MIN * L_MIN));   /* a mesh whose edges are all >= l_min has O(area / l_min^2) triangles */ g_pass.lmin2 = L_MIN * L_MIN; g_pass.lmax2 = L_MAX * L_MAX; g_pass.stale = stale;
             try { lmr.refine_mesh(c); }
             catch (op_bound_exceeded&) { g_pass.active = false; r.err = "pass-does-not-terminate-within-operation-bound: more than " + std::to_string(g_pass.max_ops) + " operations"; return r; }
-            catch (std::exception& e) { r.threw = true; }        // failure reported by exception is allowed by the statement
+            catch (std::exception& e) { r.threw = true; r.what = e.what(); }        // failure reported by exception is allowed by the statement
             g_pass.active = false;
             if (!g_pass.err.empty()) { r.err = g_pass.err; return r; }
+#ifdef PROP_C01
+            // an operation that is left by an exception after it has already torn the surface open: the pass ends with a cell that is no longer a closed manifold (every operation before it
+            // was checked, so the mesh it started from was one).  A refusal that leaves the surface intact, and the pass's own 'refinement failed' report, are not judged.
+            if (r.threw && g_pass.threw_in_op && !g_pass.state_when_aborted.empty()) { r.err = "inside pass, " + g_pass.aborted_op + " aborted by exception (" + r.what.substr(0, 120) + "): operation-aborted-with-the-surface-torn-open: " + g_pass.state_when_aborted; r.threw = false; return r; }
+#endif
             if (r.threw) return r;
 #ifdef PROP_C11
             if (unchanged_expected && sc::canon_cell(*c, false) != key_before) { snprintf(buf, sizeof buf, "pass-changed-a-mesh-already-inside-the-band: %ld splits %ld merges %ld swaps", g_pass.splits, g_pass.merges, g_pass.swaps); r.err = buf; return r; }
@@ -314,12 +322,12 @@ static L2Apply apply_l2(cell_ptr c, const Op& op, bool& stale) {
     return r;
 }
 
-struct BuiltL2 { cell_ptr c; bool stale = false; std::string err; bool dead = false; bool flat = false; };
+struct BuiltL2 { cell_ptr c; bool stale = false; std::string err; bool dead = false; bool flat = false; std::string what; };
 static BuiltL2 build_l2(const sc::Mesh& seed, const std::vector<Op>& h) {
     BuiltL2 b; b.c = fresh_cell(seed);
     for (size_t i = 0; i < h.size(); i++) { L2Apply r = apply_l2(b.c, h[i], b.stale);
         if (r.err.find("degenerate-flat") != std::string::npos) { b.dead = true; b.flat = true; return b; }
-        if (!r.err.empty()) { b.err = r.err; return b; } if (r.threw) { b.dead = true; return b; } }
+        if (!r.err.empty()) { b.err = r.err; return b; } if (r.threw) { b.dead = true; b.what = r.what; return b; } }
     return b;
 }
 
@@ -342,7 +350,7 @@ static void explore_l2(Result& R, const Seed& seed, int depth) {
                 R.violation(key, "seed " + seed.name + ", history " + hist_json(h2) + ": " + nb.err, "level=L2\nseed=" + seed.name + "\nmesh=" + sc::mesh_to_text(seed.mesh) + "\nhist=" + hist_text(h2) + "\n");
                 sc::release(nb.c); continue; }
             if (nb.flat) { R["histories_ending_in_a_flattened_mesh"]++; sc::release(nb.c); continue; }
-            if (nb.dead) { R["passes_that_reported_failure_by_exception"]++; sc::release(nb.c); continue; }
+            if (nb.dead) { R["passes_that_reported_failure_by_exception"]++; R.tables["pass_exceptions"][(g_pass.threw_in_op ? "inside " + g_pass.aborted_op.substr(0, g_pass.aborted_op.find('(')) + (g_pass.state_when_aborted.empty() ? " [surface intact]: " : " [surface torn: " + clause_of(g_pass.state_when_aborted) + "]: ") : std::string("by the pass itself: ")) + nb.what.substr(0, 80)]++; sc::release(nb.c); continue; }
             if (op.kind == L2_REFINE_SWAP || op.kind == L2_REFINE_NOSWAP) { R["ops_inside_passes"] += g_pass.ops; R.tables["ops_inside_passes"]["split"] += g_pass.splits; R.tables["ops_inside_passes"]["merge"] += g_pass.merges; R.tables["ops_inside_passes"]["swap"] += g_pass.swaps; }
             size_t nlive = nb.c->get_nb_of_nodes();
             std::string key = sc::canon_cell(*nb.c) + char(nb.stale); bool isnew = seen.insert(key).second; sc::release(nb.c);
